@@ -22,6 +22,9 @@ pub enum Case {
     /// a SETTLEMENT calendar closed on `r` consecutive days from 1799-01-02 under a business calendar without holidays
     /// (seven-day week, or Monday-Friday): more than 100 000 business days without a settlement day
     HugeSettle { r: i64, seven: bool },
+    /// a working week of Mondays only with `mondays` consecutive Mondays listed as holidays from 2000-01-03: one closure
+    /// of more than 2^20 days, adjusted from its two ends
+    SparseWeek { mondays: i64 },
 }
 
 pub const SMASKS: [Option<u8>; 5] = [None, Some(0b1100000), Some(0b0110000), Some(0b1000000), Some(0b0111111)];
@@ -254,6 +257,16 @@ pub fn check(case: &Case, idx: u64, acc: &mut Acc) {
             check_rolls(&c, &bm, z0 + r - 2, z0 + r + 3, "Cal/huge-run", case, idx, acc);
             acc.sample(|| serde_json::to_value(case).unwrap());
         }
+        Case::SparseWeek { mondays } => {
+            let z0 = days_from_civil(2000, 1, 3); // a Monday
+            let c = Cal::new((0..*mondays).map(|i| to_ndt(z0 + 7 * i)).collect(), vec![1, 2, 3, 4, 5, 6]);
+            let end = z0 + 7 * mondays; // first open Monday
+            let bm = Bitmap::from_fn(z0 - 40, end + 40, |z| (weekday(z) == 0 && !(z >= z0 && z < end), true));
+            acc.nontrivial();
+            check_rolls(&c, &bm, z0 - 1, z0 + 1, "Cal/closure-beyond-2^20-days", case, idx, acc);
+            check_rolls(&c, &bm, end - 2, end, "Cal/closure-beyond-2^20-days", case, idx, acc);
+            acc.sample(|| serde_json::to_value(case).unwrap());
+        }
         Case::HugeSettle { r, seven } => {
             let z0 = days_from_civil(1799, 1, 2);
             let biz = Cal::new(vec![], if *seven { vec![] } else { vec![5, 6] });
@@ -374,6 +387,7 @@ pub fn cases(tier: Tier) -> Vec<Case> {
             }
         }
     }
+    out.push(Case::SparseWeek { mondays: 150_000 });
     out.push(Case::HugeSettle { r: 100_100, seven: true });
     out.push(Case::HugeSettle { r: 146_500, seven: false });
     for r in [65_535i64, 65_536, 65_600] {
@@ -411,7 +425,7 @@ pub fn run(ctx: &Ctx, replay_file: Option<String>) -> ! {
          split the N / B days), CalType and, for B-free words, Cal; month boundary after every position 0..W on three \
          anchors (leap Feb->Mar, common Feb->Mar, Dec->Jan); every date of the window +-2, 5 modifiers, both \
          settlement flags. (2) all 14 built-in calendars and 5 named unions over EVERY date 1970-2200 (the piped ones also wrapped in the CalType container over 2015-2035, judged against the named calendar's own predicates). (3) all 127 \
-         week masks x 5 settlement masks x every holiday subset of one week (the holiday-free ones also with dates that carry a time of day) (for an eighth of the subsets also as a union whose two members and two settlement calendars each close only some of the weekdays, in both listing orders). (4) long runs of 12..70 and of 365, 366, 367, 400, 430, 800 consecutive closures (and, from the days around the ends and the middle only, of 65 535, 65 536 and 65 600; and settlement calendars closed for 100 100 / 146 500 days under a seven-day / five-day business week, i.e. beyond 100 000 business days) \
+         week masks x 5 settlement masks x every holiday subset of one week (the holiday-free ones also with dates that carry a time of day) (for an eighth of the subsets also as a union whose two members and two settlement calendars each close only some of the weekdays, in both listing orders). (4) long runs of 12..70 and of 365, 366, 367, 400, 430, 800 consecutive closures (and, from the days around the ends and the middle only, of 65 535, 65 536 and 65 600; and settlement calendars closed for 100 100 / 146 500 days under a seven-day / five-day business week, i.e. beyond 100 000 business days; and a Mondays-only week with 150 000 consecutive Mondays closed, a closure of 1 050 000 days) \
          at every alignment against two month ends, with and without settlement closures right after the run. Every adjustment is made through roll(modifier, settlement) and through the named method behind it; the five predicates are checked for mutual consistency on every date. Oracle: linear searches on a bitmap of \
          the calendar's definition (the word / the week masks and holidays) - for the named calendars, of their own \
          is_bus_day / is_settlement: following = first eligible >= d, previous = last eligible \
